@@ -87,11 +87,12 @@ CHECKS = {
         'PARTIAL. Model/C11.v mirrors Subscription.__new__, publish/republish, Node/Worker/Future._publish, placeholder registration '
         'and collapse, Worker.train, including the state a failing call leaves behind; it is compared with the real API after every '
         'call of random legal/illegal sequences and of all permutations of placeholder wirings. Proved (direct worker-to-worker '
-        'wiring, any state, any call): a refused subscription leaves the graph unchanged; no node ever feeds itself. Refuted with '
-        'witnesses (known findings): single publisher per port through placeholders; failing train/collapse leaving partial state. '
-        'The other invariants (apply-xor-train, one trained member per group, trained workers publish nothing, registry = '
-        'subscriptions held) are enforced by the property oracle on every generated sequence, not yet by theorems.',
-        BASE_NOTE + 'Garbage-collection driven registry edits (Subscription.__del__) and placeholder cycles are outside the model.',
+        'wiring, any state, any call): a refused subscription leaves the graph unchanged; no node ever feeds itself; after ANY '
+        'sequence of subscribe / train calls (refused ones included) every input port is fed by at most one output and by one '
+        'exactly when it is registered. Refuted with witnesses (known findings): single publisher per port through placeholders; '
+        'failing train/collapse leaving partial state. The other invariants (apply-xor-train, one trained member per group, '
+        'trained workers publish nothing) are enforced by the property oracle on every generated sequence, not by theorems.',
+        BASE_NOTE + 'Of the destructor-driven registry edits only the deterministic one is modelled (a duplicate Subscription dropped by an output set unregisters its port); garbage-collector timing and placeholder cycles are outside the model.',
         'DESIGN.md section 5 C11',
     ),
     'C01': (
